@@ -27,8 +27,8 @@ def run(v, tier, replay):
         panic = [l for l in (so + se).split("\n") if l.startswith("panic:")]
         if panic:
             last = [e for e in evs if e.get("op") == "reset"][-1:]
-            where = [l.strip() for l in (so + se).split("\n") if "/repo/" in l][:2]
-            v.violation("Seal / Open panicked: %s at %s | group %s" % (panic[0][:120], where and where[0].split("/repo/")[-1].split(" ")[0], last and {k: x for k, x in last[0].items() if k not in ("ev", "op")}),
+            where = [l.strip() for l in (so + se).split("\n") if lib.REPO_MARK in l][:2]
+            v.violation("Seal / Open panicked: %s at %s | group %s" % (panic[0][:120], where and where[0].split(lib.REPO_MARK)[-1].split(" ")[0], last and {k: x for k, x in last[0].items() if k not in ("ev", "op")}),
                         "calls on real kravatte.NewSANSE values", dict(tail=(so + se)[-1500:]))
             evs = [e for e in evs]
         else:
